@@ -62,12 +62,23 @@ def check_rules(rep, facts, rel, rule_sem, rule_acc, tier, only_names=None):
             rep.fail(Finding(rule_sem, 'transform_compressible', 'rule ' + ru.key, 'criteria rule {!r} has no construction arm'.format(ru.key),
                              line=rel.pa.fn.lineno))
             continue
+        if ru.name is None and only_names is None:
+            from ..comprel import terms_of
+            terms = [t for f in ru.formulas for t in terms_of(f)]
+            if not any(t[0] == 'NAME' for t in terms):
+                # nothing in the rule looks at what the instruction is: it fires for every mnemonic with such operands
+                rep.fail(Finding(rule_sem, 'transform_compressible', con.node,
+                                 'rule {!r} does not test the mnemonic at all: every instruction whose operands pass its register / immediate tests is replaced by {}'.format(
+                                     ru.key, con.mnemonic), line=con.node.lineno), instance=ru.key + ' meaning')
+                continue
         cm = con.mnemonic
         if cm not in oracle.RVC or cm not in sums:
             rep.fail(Finding(rule_sem, 'transform_compressible', con.node, 'rule {!r} builds {!r}, which is not an RV32C mnemonic'.format(ru.key, cm), line=con.node.lineno))
             continue
         s = sums[cm]
-        args_attrs = facts.args_attrs(con.cls) or []
+        args_attrs = facts.args_attrs(con.cls)
+        if args_attrs is None:
+            raise AnalysisError('rule {!r}: which attributes args() of {} returns is not understood'.format(ru.key, con.cls))
         attr_src = {a: src for a, src in facts.full_attr_order(con.cls)}
         if len(args_attrs) != len(s.params):
             rep.fail(Finding(rule_sem, 'transform_compressible', con.node, 'rule {!r}: class {} yields {} operands, encoder of {} takes {}'.format(
